@@ -377,6 +377,7 @@ class Closure:
 _UNSET = object()
 
 
+import collections as _collections
 import re as _re_mod
 _re_memo = _re_mod.compile(r"\b(lru_cache|cache)\b")
 
@@ -1015,7 +1016,9 @@ class Interp:
         if isinstance(base, Builtin) and base.name in ("dict", "str", "bytes", "int", "list", "tuple", "set", "frozenset", "float"):
             import builtins as _b
             return PyMethod(getattr(_b, base.name), attr)  # dict.fromkeys, str.join, bytes.fromhex, int.from_bytes ...
-        if isinstance(base, (str, bytes, list, tuple, dict, set, frozenset, bytearray, USet)):
+        if isinstance(base, (str, bytes, list, tuple, dict, set, frozenset, bytearray, USet, _collections.deque)):
+            if isinstance(base, _collections.deque) and attr == "maxlen":
+                return base.maxlen
             return PyMethod(base, attr)
         if type(base).__module__ == "re" or type(base).__name__ in ("Pattern", "Match"):
             v = getattr(base, attr, None)
